@@ -32,7 +32,9 @@ import copy
 import dataclasses
 import datetime
 import itertools
+import json
 import operator
+import re
 import typing as t
 
 import pendulum
@@ -542,9 +544,19 @@ def strload(val: str | bytes | bytearray | memoryview) -> PythonValueT:
         return text
 
 
+_LONG_NUMERAL = re.compile(r"[0-9]{19}")
+
+
+def _not_json(constant: str) -> t.NoReturn:
+    raise ValueError(f"{constant} is not JSON")
+
+
 @compat.lru_cache(maxsize=100_000)
 def _strload(val: str) -> PythonValueT:
     with contextlib.suppress(ValueError):
+        # (The fast decoder reads an integer beyond 64 bits as a float; the standard one is exact.)
+        if _LONG_NUMERAL.search(val):
+            return json.loads(val, parse_constant=_not_json)
         return compat.json.loads(val)
 
     with contextlib.suppress(ValueError, TypeError, SyntaxError):
